@@ -75,7 +75,7 @@ def run(rep):
             else:
                 i += 1
     rep.coverage["quiescence_points_checked"] = sum(c.count("\ndisk") for c in cases)
-    rep.assumptions = ["fault-free operation; no write through an ended handle (such a write leaks a file until restart: finding D7 of C13)"]
+    rep.assumptions = ["fault-free operation"]
 
 
 def replay(rep, path):
